@@ -22,9 +22,9 @@ SPEC = dict(
         'state_ctor': dict(file=H, kind='expr', sig=r'explicit async_auto_reset_event\(bool startReady\) noexcept\s*: state_\((.*?)\)\s*, event_', within=CLS),
         'event_ctor': dict(file=H, kind='expr', sig=r', event_\(([^)]*)\) \{\}', within=CLS),
         'state_member_init': dict(file=H, kind='expr', sig=r'state state_\{([^}]*)\};', within=CLS),
-        'set': dict(file=CPP, sig=r'void async_auto_reset_event::set\(\) noexcept', must_contain=[r'mutex_']),
-        'set_done': dict(file=CPP, sig=r'void async_auto_reset_event::set_done\(\) noexcept', must_contain=[r'mutex_']),
-        'try_reset': dict(file=CPP, sig=r'bool async_auto_reset_event::try_reset\(\) noexcept', must_contain=[r'mutex_']),
+        'set': dict(file=CPP, sig=r'void async_auto_reset_event::set\(\) noexcept'),
+        'set_done': dict(file=CPP, sig=r'void async_auto_reset_event::set_done\(\) noexcept'),
+        'try_reset': dict(file=CPP, sig=r'bool async_auto_reset_event::try_reset\(\) noexcept'),
     },
     closed_world=[
         dict(file=CPP, members=['state_', 'event_', 'mutex_']),
